@@ -1,6 +1,6 @@
 (* Properties_C04.v — obligations of property C04 (a callback fires exactly when its field changes,
    and sees the new value). *)
-Require Import ObsRun Lemmas_Cb Lemmas_CbText Lemmas_CbRt Lemmas_CbAf.
+Require Import ObsRun Lemmas_Cb Lemmas_CbText Lemmas_CbRt Lemmas_CbAf Lemmas_ObsCb.
 Local Open Scope Z_scope.
 
 (* For EVERY state, every group and each of PI, PTY, TP, TA, MS, ECC, country: the callbacks of that
@@ -94,6 +94,18 @@ Proof.
   destruct str as [l|]; [|reflexivity]. cbn [step]. cbn in H. rewrite H. reflexivity.
 Qed.
 Print Assumptions C04_only_parse_calls_notify.
+
+(* THE OBSERVER: all of the above in the one boolean function the check evaluates on the library —
+   per scalar field and per text: number of callbacks = 1 if the getter result differs and a
+   callback is registered, else 0, each sampling the new value; RT: the buffer of the group's flag,
+   additionally when a switch discards the old text, flag passed, other buffer untouched; AF: one
+   callback per code listed afterwards and not before, at most two, distinct, each already listed
+   in the sample; every callback is the registered non-NULL function; no callback outside a
+   successful parse call — at every step from every reachable state *)
+Theorem C04_observer : forall conv lut h s o ret, reach conv lut h s -> wf_op o ->
+  obs_C04 (o :: h) (snap_of s) (snap_of (fst (step conv lut s o))) (snd (step conv lut s o)) ret = true.
+Proof. exact obs_C04_holds. Qed.
+Print Assumptions C04_observer.
 
 (* Together: every field's callbacks are characterised (seven scalars, PS, PTYN, RT, AF); clock
    time is C12.  The boolean observer obs_C04 (the same statements in one function over a
